@@ -293,6 +293,8 @@ class LayoutExtractor:
                 locs[st.targets[0].id] = ('expr', v)
             elif isinstance(st, ast.Return):
                 ret = st.value
+            elif _is_logging(st):
+                continue
             else:
                 raise AnalysisError('%s: statement %s in encode() is not a recognised idiom' % (f.loc(st), norm(st)[:60]))
         if ret is None:
@@ -422,6 +424,8 @@ class LayoutExtractor:
         for st in body:
             if isinstance(st, ast.FunctionDef):
                 gens[st.name] = st
+                continue
+            if _is_logging(st):
                 continue
             if isinstance(st, ast.Assign) and len(st.targets) == 1:
                 t, v = st.targets[0], st.value
@@ -812,6 +816,14 @@ class LayoutExtractor:
         lay = CodecLayout(c, enc, dec, ef, df, self.ctor_map(c), ret_map, total, length_prop, tattr, tconst)
         self.layouts[c.name] = lay
         return lay
+
+
+def _is_logging(st: ast.stmt) -> bool:
+    """a pure logging / warnings call statement (no influence on the bytes)"""
+    if isinstance(st, ast.Expr) and isinstance(st.value, ast.Call):
+        t = norm(st.value.func)
+        return t.split('.')[0] in ('logging', 'logger', 'log', 'LOG', 'LOGGER', 'warnings') or t.startswith('logging.getLogger(')
+    return False
 
 
 def _single_return(m: FuncInfo) -> ast.expr:
